@@ -7,3 +7,6 @@ import "gonum.org/v1/gonum/graph"
 
 // simOrderNodes is a no-op unless the package is built with the verif tag.
 func simOrderNodes([]graph.Node) {}
+
+// simYield is a no-op unless the package is built with the verif tag.
+func simYield() {}
